@@ -217,11 +217,12 @@ class Chipset(object):
             if ack.type == 'ack':
                 rsp = Frame(self.transport.read())
                 if rsp.type == 'data':
-                    if rsp.data[0] == 0xD7 and rsp.data[1] == cmd_code + 1:
+                    if rsp.data[0:2] == bytearray([0xD7, cmd_code + 1]):
                         return rsp.data[2:]
                     else:
-                        logmsg = "expected rsp code D7{:02X} not {:02X}{:02X}"
-                        log.error(logmsg.format(cmd_code+1, *rsp.data[0:2]))
+                        logmsg = "expected rsp code D7{:02X} not {}"
+                        rsp_code = hexlify(rsp.data[0:2]).decode().upper()
+                        log.error(logmsg.format(cmd_code+1, rsp_code))
                 else:
                     log.error("expected data but got {}".format(rsp.type))
             else:
